@@ -234,9 +234,30 @@ namespace Track
 	}
       else if (state == DecodeState::LookingForRecord)
 	{
+	  // The record belonging to the sector ID we just read follows
+	  // it closely (after gap 2 and the sync bytes).  A floppy disc
+	  // controller gives up on the sector if it has not seen the
+	  // data address mark within 30 bytes of the end of the sector
+	  // ID, and so do we; a record which is further away than that
+	  // belongs to some other sector (whose ID we should read
+	  // first).
+	  constexpr size_t fm_cells_per_byte = 16u;
+	  constexpr size_t max_id_to_mark_cells = (30u + 1u) * fm_cells_per_byte;
+	  const size_t search_start = thisbit;
 	  std::optional<unsigned int> found = find_record_address_mark();
 	  if (!found)
 	    break;
+	  if (thisbit - search_start > max_id_to_mark_cells)
+	    {
+	      if (verbose)
+		{
+		  std::cerr << "The record for the sector with address "
+			    << sec.address << " is missing\n";
+		}
+	      thisbit = search_start;
+	      state = DecodeState::LookingForAddress;
+	      continue;
+	    }
 	  const bool discard_record = *found == 0xF56A;
 	  if (verbose)
 	    {
